@@ -149,26 +149,45 @@ def run(tier, seed):
       rep.case({'algorithm': 'cmaes', 'space': meta}, True)
     except Exception as e:  # pylint: disable=broad-except
       rep.count('refused_cmaes_%s' % type(e).__name__)
-    problem, meta = spaces.gen_space(r, vz, bool_only=True)
+    # boolean-only designers: proper boolean spaces, and near misses they must refuse or handle (a boolean with one
+    # feasible value, two-valued categoricals that are not booleans, three-valued categoricals); run past the ten random
+    # seeding trials so that the model-based phase is reached
+    kindb = ['bool', 'bool', 'single_bool', 'two_cat', 'three_cat'][si % 5]
+    if kindb == 'bool':
+      problem, meta = spaces.gen_space(r, vz, bool_only=True)
+    else:
+      problem = vz.ProblemStatement()
+      meta = {}
+      for i in range(r.randrange(1, 4)):
+        nm_ = 'b%d' % i
+        if kindb == 'single_bool':
+          val = r.choice([True, False])
+          problem.search_space.root.add_bool_param(nm_, feasible_values=[val])
+          meta[nm_] = ('c', [str(val)])
+        else:
+          vals = r.choice([['adam', 'sgd'], ['relu', 'tanh'], ['0', '1']]) if kindb == 'two_cat' else ['a', 'b', 'c']
+          problem.search_space.root.add_categorical_param(nm_, vals)
+          meta[nm_] = ('c', sorted(vals))
+      problem.metric_information.append(vz.MetricInformation(name='m', goal=vz.ObjectiveMetricGoal.MAXIMIZE))
     for nm, cls in (('bocs', bocs.BOCSDesigner), ('harmonica', harmonica.HarmonicaDesigner)):
       try:
         d = cls(problem)
         tid = 0
-        for rd in range(3):
+        for rd in range(14 if (tier != 'quick' or si % 2 == 0) else 3):
           sug = d.suggest(1)
           trials = []
           for s in sug:
             probs = spaces.check_suggestion(meta, pdict(s))
             if probs:
-              viol('%s suggested a point outside the search space: %s' % (nm, '; '.join(probs)[:200]), {'suggestion': repr(pdict(s))})
+              viol('%s suggested a point outside the search space: %s' % (nm, '; '.join(probs)[:200]), {'space': repr(problem.search_space)[:500], 'suggestion': repr(pdict(s)), 'after_trials': tid})
             tid += 1
             t = s.to_trial(tid)
             t.complete(vz.Measurement({'m': r.random()}))
             trials.append(t)
           d.update(vza.CompletedTrials(trials), vza.ActiveTrials())
-        rep.case({'algorithm': nm, 'space': meta}, True)
+        rep.case({'algorithm': nm, 'space': meta, 'kind': kindb}, True)
       except Exception as e:  # pylint: disable=broad-except
-        rep.count('refused_%s_%s' % (nm, type(e).__name__))
+        rep.count('refused_%s_%s_%s' % (nm, kindb, type(e).__name__))
   b2, c2 = model_part(rep, tier, r)
   broke = ((broke or '') + ' ' + (b2 or '')).strip() or None
   concrete = concrete or c2
